@@ -20,12 +20,16 @@ var table = map[string]struct {
 	"C02": {"model_checking", checks.C02},
 	"C03": {"model_checking", checks.C03},
 	"C04": {"model_checking", checks.C04},
+	"C05": {"model_checking", checks.C05},
 	"C06": {"model_checking", checks.C06},
+	"C07": {"model_checking", checks.C07},
 	"C08": {"model_checking", checks.C08},
 	"C10": {"model_checking", checks.C10},
 	"C13": {"model_checking", checks.C13},
 	"C14": {"fault_enumeration", checks.C14},
 	"C15": {"fault_enumeration", checks.C15},
+	"C18": {"model_checking", checks.C18},
+	"C19": {"model_checking", checks.C19},
 	"C11": {"model_checking", checks.C11},
 }
 
